@@ -62,3 +62,9 @@ package header
 //@ iface Injector.Inject
 //@ prop C07
 //@ modifies a0.hdr
+
+//@ func newInjectorFunc
+//@ prop C19 C07
+//@ ensures[nonnil:injector-wraps-the-given-function] result != nil && typeis(result, "*injectorFunc") && as(result, "*injectorFunc").injectFunc == injectFunc
+//@ prop C19
+//@ scan[nonnil:injector-funcs-allocated-by-the-constructor] alloc-of pkg/header.injectorFunc pkg/header.newInjectorFunc
